@@ -13,15 +13,23 @@ package main
 
 import (
 	"encoding/json"
+	"fmt"
 	"os"
 	"runtime/debug"
 	"runtime/pprof"
+	"time"
 
 	"verif/harness/internal/h"
 )
 
 type anyScenario struct {
 	Type string `json:"type"`
+}
+
+func phase(r *h.Run, name string, f func(*h.Run)) {
+	t0 := time.Now()
+	f(r)
+	r.Note(fmt.Sprintf("phase %s: %.1fs", name, time.Since(t0).Seconds()))
 }
 
 func main() {
@@ -57,10 +65,11 @@ func main() {
 		return
 	}
 	// everything lives in in-memory back ends (one fresh world per scenario): no scratch data on the OS file system
-	corpus(r)
-	keyScenarios(r)
-	sweepSeq(r)
-	otherScenarios(r)
+	phase(r, "corpus", corpus)
+	phase(r, "linkScenarios", linkScenarios)
+	phase(r, "keyScenarios", keyScenarios)
+	phase(r, "sweepSeq", sweepSeq)
+	phase(r, "otherScenarios", otherScenarios)
 	r.Note("back end: afero MemMapFs behind strictFs (EISDIR / ENOENT like an OS file system); lock files look one hour old to the fresh clients of sequential scenarios (fabricated clock), real clocks in the gated scenarios")
 	r.Finish()
 }
